@@ -906,7 +906,7 @@ class _World:
             (' stray=' + ','.join(stray)) if stray else '')
 
     def emit(self, line, post, hits):
-        self.run.op(line, self.obs(post))
+        self.run.op(line, None if getattr(self, 'uncompared', False) else self.obs(post))
         hits = list(hits) + self.monitor_stray(post)
         if hits and not self.first_hit:
             # later states are consequences of the first violation: report the first step only
@@ -1131,8 +1131,15 @@ class _World:
         # RESULT of a synchronisation / a delete event are judged after the restart's synchronisation)
         hits = monitor_single_ref(mid, self.prims, self.orig_app_name, site)
         hits += monitor_handler('crashed:' + kind, name, pre, mid, self.prims, False, self.orig_app_name)
-        for ln in self.prim_lines():
+        plines = self.prim_lines()
+        for ln in plines:
             self.run.op(ln, None)
+        if 'punknown' in plines:
+            # a mutation of the cut handler the harness cannot name for the model (e.g. a link that the same handler
+            # created and then moved: its target can no longer be read): from here on the model no longer tracks the
+            # tree - the rest of the history is judged by the monitors on the real directories only
+            self.uncompared = True
+            self.run.tags.add('crash-prefix-unmapped')
         if hits and not self.first_hit:
             self.first_hit = True
             self.run.hits.extend(hits)
